@@ -42,7 +42,8 @@ Definition eval_brk_case (k : brk_case) : list Z :=
   let m := mon_run cfg (mon_init (bk_t0 k)) (bk_ops k) (bk_obs k) in
   [ first_diff (flat out) (flat (bk_obs k));
     b2z (m_ok_block m); b2z (m_ok_trials m); b2z (m_ok_trip m); b2z (m_ok_close m); b2z (m_ok_reopen m);
-    b2z (rec_ok 0 (bk_rec_from k) (bk_ops k) (bk_obs k) 0);
+    (* recovery is claimed for accepted configurations: success_threshold <= max_requests *)
+    b2z (rec_ok 0 (bk_rec_from k) (bk_ops k) (bk_obs k) 0 || (bk_max k <? bk_sthr k));
     b2z (bk_max k <? bk_sthr k);
     b2z (reaches_open (bk_obs k));
     b2z (negb (Z.eqb (nth_state (bk_rec_from k - 1) (bk_obs k) 0) 0)) ].
